@@ -28,7 +28,7 @@ def run(ctx):
             {"kind": "R", "api": "c", "mode": "yield", "limit": limit, "rows": table, "close": True, "pre": 1},
         ]
         if with_fault:
-            # (the exhaustive delimited scenarios only) a container that is malformed after its last row
+            # a container that is malformed after its last row
             runs.append({"kind": "R", "api": "v", "mode": "raise", "limit": limit, "stop": limit, "rows": table, "fault": True})
         return runs
 
@@ -51,8 +51,10 @@ def run(ctx):
         fields = engine.gen_fields(rnd, rnd.randint(1, 3), fmt)
         table = engine.gen_table(rnd, fields, fmt, rnd.randint(0, 7), p_bad=0.25)
         limit = rnd.choice([None, 0, 1, 2, 3, 4, 8])
+        # the malformed tail of a fixed-width container is an incomplete record: records one character wide have none
+        faultable = fmt == "delimited" or sum(f["width"] for f in fields) >= 2
         scns.append({"format": fmt, "line": rnd.choice(["lf", "cr", "crlf", "any", "none"]), "allowed": None, "fields": fields, "checks": engine.gen_checks(rnd, fields), "header": rnd.randint(0, 3),
-                     "runs": runs_for(table, limit), "bad": None})
+                     "runs": runs_for(table, limit, with_fault=faultable), "bad": None})
     ctx.notes["exhaustive_cases"] = n_exh
     ctx.notes["random_cases"] = n
     for scn, mruns, iruns in engine.run_scenarios(scns):
